@@ -1328,7 +1328,7 @@ def suite_udp(out, tier, seed):
     if tier == "quick":
         rnd.shuffle(plans)
         plans = plans[:10] + [("empty",), ("drop", "empty")]
-    T = 0.12
+    T = 0.3
 
     async def one(plan, retries, closed_port=False):
         loop = asyncio.get_running_loop()
@@ -1598,17 +1598,6 @@ def suite_concurrent(out, tier, seed):
                 pending.append((fut, data))
                 return await fut
 
-            async def scheduler2(order_rnd, pending=pending, base=base):
-                idle = 0
-                while idle < 200:
-                    await asyncio.sleep(0)
-                    if not pending:
-                        idle += 1
-                        continue
-                    idle = 0
-                    fut, data = pending.pop(order_rnd.randrange(len(pending)))
-                    if not fut.done():
-                        fut.set_result(await base(None, data))
             c = Client("127.0.0.1", creds, sender=sender2)
             many = [x for x, _ in db] * 3
             rnd.shuffle(many)
@@ -1627,19 +1616,35 @@ def suite_concurrent(out, tier, seed):
                                                                       ("bulk", (1, 3, 1, 2)), ("get", (1, 3, 1, 3, 3))]
             rnd.shuffle(chosen)
 
-            async def main2():
-                sch = asyncio.ensure_future(scheduler2(random.Random(rnd.random())))
-                try:
-                    return await asyncio.wait_for(asyncio.gather(*[do2(op, o) for op, o in chosen], return_exceptions=True), 8)
-                except asyncio.TimeoutError:
+            async def main2(pending=pending, base=base):
+                # (no wall clock: the batch is stuck when, with operations unfinished, no request has been pending for 3000 turns
+                #  of the event loop - an operation needs a handful of turns between two of its exchanges)
+                order_rnd = random.Random(rnd.random())
+                batch = asyncio.ensure_future(asyncio.gather(*[do2(op, o) for op, o in chosen], return_exceptions=True))
+                idle = 0
+                while not batch.done() and idle < 3000:
+                    await asyncio.sleep(0)
+                    if not pending:
+                        idle += 1
+                        continue
+                    idle = 0
+                    fut, data = pending.pop(order_rnd.randrange(len(pending)))
+                    if not fut.done():
+                        fut.set_result(await base(None, data))
+                if not batch.done():
+                    batch.cancel()
+                    try:
+                        await batch
+                    except BaseException:  # noqa
+                        pass
                     return None
-                finally:
-                    sch.cancel()
+                return batch.result()
             out.case((cfg, "large", trial))
             res = run(main2())
             scen = {"kind": "concurrent-large", "config": cfg, "ops": [a for a, _ in chosen]}
             if res is None:
-                out.fail(scen, "the operations did not all complete within 8 s", "every operation completes with the result it has alone")
+                out.fail(scen, "operations still unfinished while no request is pending (3000 idle turns of the event loop)",
+                         "every operation completes with the result it has alone")
                 continue
             for (op, o), r in zip(chosen, res):
                 if op == "badset":
